@@ -32,7 +32,12 @@ ReadVerdict(ev) ==
              ELSE IF ev.comments # rt.comments THEN "comments-differ"
              ELSE "ok"
 \* C04: an accepted damaged file must carry the authentic content (independent of the parser model)
-NoSilentAccept(ev) == (ev.has_auth = 1 /\ ev.kind = "ok") => (ev.comps = ev.auth_comps /\ ev.comments = ev.auth_comments)
+\* (an encrypted component comes back zero-padded to the block size: equal up to its declared length)
+SameComp(a, b) == /\ a.desc = b.desc /\ a.alen = b.alen /\ a.enc = b.enc
+                  /\ IF a.enc THEN Len(a.blob) >= a.alen /\ Len(b.blob) >= a.alen /\ SubSeq(a.blob, 1, a.alen) = SubSeq(b.blob, 1, a.alen)
+                     ELSE a.blob = b.blob
+SameComps(x, y) == Len(x) = Len(y) /\ \A j \in 1..Len(x) : SameComp(x[j], y[j])
+NoSilentAccept(ev) == (ev.has_auth = 1 /\ ev.kind = "ok") => (SameComps(ev.comps, ev.auth_comps) /\ ev.comments = ev.auth_comments)
 
 Verdict(ev) ==
     IF ev.op = "bf3.to_binary" THEN ToBinaryVerdict(ev)
